@@ -250,7 +250,8 @@ def closed_tuple_schema(rng):
     if m is not None:
         tup["minItems"] = m
     wrap = rng.choice([lambda: {"type": "array", "items": tup}, lambda: {"anyOf": [tup, {"type": "null"}]}, lambda: tup,
-                       lambda: {"type": "array", "items": {"anyOf": [tup, {"type": "string"}]}}])()
+                       lambda: {"type": "array", "items": {"anyOf": [tup, {"type": "string"}]}},
+                       lambda: {"type": "array", "items": {"anyOf": [tup, {"type": "integer"}]}}])()
     if rng.random() < 0.25:
         return wrap
     outer = {"type": "object", "properties": {"rows": wrap}}
